@@ -171,7 +171,7 @@ func c11Run(c *fw.Ctx, cs *c11Case, vtWait func()) {
 	type item struct {
 		msg   util.Message
 		want  []byte
-		again int // this many messages later the producer submits the very same object once more (a cached keep-alive)
+		again int  // this many messages later the producer submits the very same object once more (a cached keep-alive)
 		skip  bool // part of a batch submitted as one raw buffer by an earlier item
 	}
 	type keptMsg struct {
